@@ -35,6 +35,24 @@ macro_rules! dense_be {
                     other => panic!("harness: unknown constructor {}", other),
                 }
             }
+            fn iter_mode(m: &DenseMatrix<$t>, mode: &str, k: usize) -> Option<Vec<f64>> {
+                let f = |x: $t| x as f64;
+                Some(match mode {
+                    "iter_nth" => m.iter().nth(k.saturating_sub(1)).map(f).into_iter().collect(),
+                    "iter_skip" => m.iter().skip(k).map(f).collect(),
+                    "iter_step" => m.iter().step_by(k.max(1)).map(f).collect(),
+                    "iter_count" => vec![m.iter().count() as f64],
+                    "iter_last" => m.iter().last().map(f).into_iter().collect(),
+                    _ => {
+                        let mut it = m.iter();
+                        for _ in 0..k {
+                            it.next();
+                        }
+                        let (lo, hi) = it.size_hint();
+                        vec![lo as f64, hi.map(|h| h as f64).unwrap_or(-1.0)]
+                    }
+                })
+            }
             fn iter_flat(m: &DenseMatrix<$t>) -> Option<Vec<$t>> {
                 Some(m.iter().collect())
             }
